@@ -113,7 +113,8 @@ func (x *Exec) enabled(t *Thread) bool {
 // It picks the thread to run next (possibly t) and sets x.cur / x.granted.
 func (x *Exec) schedule(t *Thread) {
 	var opts []*Thread
-	budget := x.P.Cfg.Preemptions < 0 || x.preempt < x.P.Cfg.Preemptions
+	atYield := x.isYield(t)
+	budget := atYield || x.P.Cfg.Preemptions < 0 || x.preempt < x.P.Cfg.Preemptions
 	tEnabled := x.enabled(t)
 	for _, o := range x.threads {
 		if o == t {
@@ -139,7 +140,7 @@ func (x *Exec) schedule(t *Thread) {
 		idx = x.decide(len(opts), nil)
 	}
 	nt := opts[idx]
-	if nt != t && tEnabled {
+	if nt != t && tEnabled && !atYield {
 		x.preempt++
 	}
 	if nt.blocked != nil {
@@ -148,6 +149,20 @@ func (x *Exec) schedule(t *Thread) {
 	}
 	x.cur = nt
 	x.granted = nt
+}
+
+// isYield reports whether thread t is about to execute a cooperative vYield() (switching there is free).
+func (x *Exec) isYield(t *Thread) bool {
+	if len(t.frames) == 0 {
+		return false
+	}
+	f := x.top(t)
+	if c, ok := f.block.Instrs[f.ip].(*ssa.Call); ok {
+		if fn := c.Call.StaticCallee(); fn != nil && fn.Pkg == x.P.Target && fn.Name() == "vYield" {
+			return true
+		}
+	}
+	return false
 }
 
 // switchAway is called when the current thread cannot continue (done or blocked).
